@@ -386,7 +386,66 @@ def rule_known_definitions(run):
     c11.rule_pairing(run)
 
 
-RULES = [rule_tables, rule_dispatch, rule_compare_chain, rule_boolop, rule_fail_closed, rule_bind, rule_env, rule_builtins, rule_siblings]
+def rule_unpack(run):
+    run.begin(
+        "C10.unpack",
+        "starred unpacking `a, *m, z = xs` distributes the elements like CPython for every number of names before and "
+        "after the star and every length: the names before take the first elements, the names after the last ones, the "
+        "starred name the list in between; length mismatches are rejected (abstract evaluation of _split_target)",
+        floor=40,
+    )
+    from ..absint import Interp, Reject
+
+    class _Star:
+        pass
+
+    class _Name:
+        pass
+
+    class _AstTok:
+        Starred = _Star
+
+    prep = run.idx.mod(PREP)
+    f = prep.func("PrepareAst._split_target")
+    prims = {"isinstance": lambda v, t: isinstance(v, t) if isinstance(t, type) else False, "ast": _AstTok(), "len": len, "enumerate": enumerate}
+    for before in range(0, 4):
+        for after in range(0, 4):
+            for mid in range(0, 3):
+                targets = [_Name() for _ in range(before)] + [_Star()] + [_Name() for _ in range(after)]
+                n = before + after + mid
+                source = [f"e{i}" for i in range(n)]
+                exp = source[:before] + [source[before:n - after]] + source[n - after:]
+                try:
+                    got = Interp(prep, dict(prims)).call_function("PrepareAst._split_target", None, targets, list(source))
+                except Reject as e:
+                    got = f"rejected: {e}"
+                run.ob(got == exp, "PrepareAst._split_target", file=prep.rel, line=f.node.lineno, detail=f"before={before},after={after},starred={mid}",
+                       expected=str(exp), found=str(got)[:100], sample=(before, after, mid) == (1, 2, 1))
+            # too few elements for the plain names
+            if before + after >= 1:
+                targets = [_Name() for _ in range(before)] + [_Star()] + [_Name() for _ in range(after)]
+                try:
+                    got = Interp(prep, dict(prims)).call_function("PrepareAst._split_target", None, targets, [f"e{i}" for i in range(before + after - 1)])
+                    rej = False
+                except Reject:
+                    rej = True
+                run.ob(rej, "PrepareAst._split_target", file=prep.rel, line=f.node.lineno, detail=f"before={before},after={after},too-short", expected="rejected", found="rejected" if rej else str(got)[:60], sample=False)
+    for n_t, n_s in ((2, 3), (3, 2), (1, 0)):
+        try:
+            got = Interp(prep, dict(prims)).call_function("PrepareAst._split_target", None, [_Name() for _ in range(n_t)], list(range(n_s)))
+            rej = False
+        except Reject:
+            rej = True
+        run.ob(rej, "PrepareAst._split_target", file=prep.rel, line=f.node.lineno, detail=f"no-star {n_t}<-{n_s}", expected="rejected", found="rejected" if rej else str(got))
+    run.end()
+
+
+def rule_purge(run):
+    from . import c11
+    c11.rule_definition_purge(run)   # a stale cached definition makes a traced function see old globals (C10) and history (C11)
+
+
+RULES = [rule_tables, rule_dispatch, rule_compare_chain, rule_boolop, rule_fail_closed, rule_bind, rule_env, rule_builtins, rule_siblings, rule_unpack, rule_purge]
 LEVEL = "other"
 EXPLANATION = (
     "The tracer re-implements CPython's evaluation rules by hand; decided here, for all programs, are the parts of "
